@@ -605,8 +605,20 @@ class SymExec:
                 p2.conds = p2.conds + tuple(a for a in ats if a not in p2.conds)
                 out += self._block(blk, [p2])
             return out
+        if isinstance(st, ast.For) and self.bind_loops and not st.orelse and not getattr(st, '_iter_done', False):
+            # the iterable with helper calls looked through; a helper with several paths forks the walk
+            its = self.eval_expr(st.iter, p)
+            if len(its) > 1 or (len(its) == 1 and norm(its[0][0]) != norm(self.subst(st.iter, p.env))):
+                outs = []
+                for it_, pp in its:
+                    st2 = ast.For(target=st.target, iter=it_, body=st.body, orelse=st.orelse)
+                    ast.copy_location(st2, st)
+                    st2._iter_done = True
+                    # the iterable is already closed: keep it from being substituted again
+                    outs += self._stmt(st2, pp)
+                return outs
         if isinstance(st, ast.For) and self.bind_loops and not st.orelse:
-            it0 = self.subst(st.iter, p.env)
+            it0 = st.iter if getattr(st, '_iter_done', False) else self.subst(st.iter, p.env)
             if isinstance(it0, (ast.Tuple, ast.List)) and len(it0.elts) <= 12 and \
                not any(isinstance(x, ast.Starred) for x in it0.elts):
                 # a loop over a literal: executed element by element
@@ -638,10 +650,13 @@ class SymExec:
             starts = []
             if isinstance(st, ast.For):
                 # the iterable with helper calls looked through (a helper returning a generator)
-                its = self.eval_expr(st.iter, p) if self.bind_loops else [(self.subst(st.iter, p.env), p)]
-                if len(its) != 1:
-                    its = [(self.subst(st.iter, p.env), p)]
-                it = its[0][0]
+                if getattr(st, '_iter_done', False):
+                    it = st.iter
+                else:
+                    its = self.eval_expr(st.iter, p) if self.bind_loops else [(self.subst(st.iter, p.env), p)]
+                    if len(its) != 1:
+                        its = [(self.subst(st.iter, p.env), p)]
+                    it = its[0][0]
                 loop_txt = norm(it)
                 p2 = p.fork()
                 for n in ast.walk(st.target):
